@@ -37,6 +37,8 @@ def gen_case(rng: random.Random, tier: str) -> dict:
             if nd["kind"] == "route" and not nd.get("multi") and rng.random() < 0.25 and nd["targets"] != ["@END"]:
                 nd["fallback"] = rng.choice(nd["targets"])
                 nd["decide"]["choices"] = list(nd["decide"]["choices"]) + [None]
+    if rng.random() < 0.3:
+        gen.add_substring_names(rng, g)  # one target's name is a prefix of a sibling target's name
     inp = gen.program_inputs(rng, g)
     return {"graph": g, "inputs": inp, "async": [gen.gen_async_cfg(rng) for _ in range(2)], "max_iterations": rng.choice([None, 6, 12]) if g["seeds"] else None,
             "api": {"decorators": rng.random() < 0.35, "explicit_edges": rng.random() < 0.3, "wrap_async": False}}
